@@ -71,6 +71,7 @@ Definition bind {A B} (r : res A) (k : A -> res B) : res B :=
     [{n1 | c, n2 | c, ...[, ..]}]. *)
 Inductive ctr :=
 | CDyn | CNum | CStr
+| CGt (k : Z)                             (* std.contract.from_predicate (fun x => std.is_number x && x > k) *)
 | CArr (c : ctr)
 | CDictT (c : ctr)                       (* {_ : c}   $dict_type     *)
 | CDictC (c : ctr)                       (* {_ | c}   $dict_contract *)
@@ -192,6 +193,7 @@ Definition tctrs (p : list pc) (t : thunk) : thunk := fold_left (fun acc c => TC
 Fixpoint ctr_eqb (a b : ctr) : bool :=
   match a, b with
   | CDyn, CDyn | CNum, CNum | CStr, CStr => true
+  | CGt k, CGt k' => Z.eqb k k'
   | CArr x, CArr y | CDictT x, CDictT y | CDictC x, CDictC y => ctr_eqb x y
   | CRecT n x, CRecT m y => (if list_eq_dec string_dec n m then true else false) && ctr_eqb x y
   | CRecC n x o, CRecC m y o' =>
@@ -406,6 +408,7 @@ Definition apply_ctr (pol : bool) (c : ctr) (r : res lval) : res lval :=
   | CDyn => Ok v
   | CNum => match v with VNum _ => Ok v | _ => Err (blame pol) end
   | CStr => match v with VStr _ => Ok v | _ => Err (blame pol) end
+  | CGt k => match v with VNum z => if Z.ltb k z then Ok v else Err (blame pol) | _ => Err (blame pol) end
   | CArr c' =>                                  (* $array: %contract/array_lazy_apply% *)
       match v with
       | VArr es p => Ok (prim_array_lazy_app (pol, c') es p)
@@ -920,11 +923,30 @@ with force (n : nat) (t : thunk) : res tree :=
 (* ------------------------------------------------------------------------------------------ *)
 (** * Programs: [observe (v | T)] *)
 
+(** Arbitrarily nested data literals (arrays / records of atoms). *)
+Inductive ctree :=
+| TA (a : atom)
+| TL (xs : list ctree)
+| TR (fs : list (string * ctree)).
+
+Fixpoint thunk_of_tree (t : ctree) : thunk :=
+  match t with
+  | TA a => thunk_of_atom a
+  | TL xs => TVal (Ok (VArr (map thunk_of_tree xs) []))
+  | TR fs =>
+      TVal (Ok (VRec ((fix go (fs : list (string * ctree)) : list field :=
+                         match fs with
+                         | [] => []
+                         | (k, x) :: fs' => (k, (thunk_of_tree x, [])) :: go fs'
+                         end) fs)))
+  end.
+
 Inductive container :=
 | KArr (xs : list atom)
 | KArr2 (rows : list (list atom))
 | KRec (fs : list (string * atom))
-| KFun (o : obs).
+| KFun (o : obs)
+| KTree (t : ctree).
 
 Definition thunk_of_container (k : container) : thunk :=
   match k with
@@ -933,6 +955,7 @@ Definition thunk_of_container (k : container) : thunk :=
       TVal (Ok (VArr (map (fun r => TVal (Ok (VArr (map thunk_of_atom r) []))) rows) []))
   | KRec fs => TVal (Ok (VRec (map (fun '(k, a) => (k, (thunk_of_atom a, []))) fs)))
   | KFun o => TVal (Ok (VFun (FBase o)))
+  | KTree t => thunk_of_tree t
   end.
 
 Definition annotate (T : option ctr) (t : thunk) : thunk :=
@@ -949,3 +972,19 @@ Definition run (fuel : nat) (k : container) (T : option ctr) (o : obs) : res tre
     [let f | T -> Dyn = fun x => o x in f k]; its annotation has the negative polarity. *)
 Definition run_dom (fuel : nat) (k : container) (T : ctr) (o : obs) : res tree :=
   force fuel (TObs o (TCtr (false, T) (thunk_of_container k))).
+
+(** Several annotations stacked on the same container: [k | T1 | T2 | ...].  However they are
+    written (inline, through aliases, contract factories, already evaluated or not, attached by
+    annotation or by merging record contracts) the pending lists guard like the conjunction. *)
+Definition annotate_all (Ts : list ctr) (t : thunk) : thunk := tctrs (map (pair true) Ts) t.
+
+Definition run_stack (fuel : nat) (k : container) (Ts : list ctr) (o : obs) : res tree :=
+  force fuel (TObs o (annotate_all Ts (thunk_of_container k))).
+
+(** [(k1 | Ts1) @ (k2 | Ts2)] observed through [o]. *)
+Definition run_concat (fuel : nat) (k1 : container) (Ts1 : list ctr) (k2 : container) (Ts2 : list ctr)
+  (o : obs) : res tree :=
+  force fuel
+    (TObs (OComp (OConcat2 (OAccess "l") (OAccess "r")) o)
+       (TRecLit [("l", annotate_all Ts1 (thunk_of_container k1));
+                 ("r", annotate_all Ts2 (thunk_of_container k2))])).
